@@ -117,6 +117,17 @@ func (p *Provider) Start(_ context.Context) error {
 
 	p.l.Info().Msg("Starting rule definitions provider")
 
+	// the watch is registered before the initial load. Otherwise, changes done while the rule
+	// sets are loaded would never be noticed. The corresponding events are handled as soon as
+	// the initial load is done; those for files already loaded with the same contents are ignored.
+	if p.w != nil {
+		if err := p.w.Add(p.src); err != nil {
+			p.l.Error().Err(err).Msg("Failed to start rule definitions provider")
+
+			return err
+		}
+	}
+
 	if err := p.loadInitialRuleSet(); err != nil {
 		p.l.Error().Err(err).Msg("Failed loading initial rule sets")
 
@@ -128,12 +139,6 @@ func (p *Provider) Start(_ context.Context) error {
 			Msg("Watcher for file_system provider is not configured. Updates to rules will have no effects.")
 
 		return nil
-	}
-
-	if err := p.w.Add(p.src); err != nil {
-		p.l.Error().Err(err).Msg("Failed to start rule definitions provider")
-
-		return err
 	}
 
 	go p.watchFiles()
